@@ -1,5 +1,6 @@
 import Kio.Gen.Module
 import Kio.Gen.DefSpec
+import Kio.Proofs.GenSpecBase
 /-!
 The generator model against the independent reading of a definition (C16).
 -/
@@ -42,6 +43,341 @@ def specAgrees (d : MsgDef) (b : List (List Nat)) (v : Nat) : Bool :=
           (match ef.kind with | .primArr _ => true | _ => shapeNullable f.shape == ef.nullable))
       && g.version == v && g.flexible == d.flexibleVersions.matches v && g.apiKey == d.apiKey)
 
+
+theorem fieldKindOf_append {names more : List (List Nat)} {f : Field} {k : DefSpec.FKind}
+    (h : fieldKindOf names f = some k) : fieldKindOf (names ++ more) f = some k := by
+  have key : ∀ (i : Nat) (x : List Nat), names[i]? = some x → (names ++ more)[i]? = some x := by
+    intro i x hx
+    obtain ⟨hi, _⟩ := List.getElem?_eq_some_iff.1 hx
+    rw [List.getElem?_append_left hi]; exact hx
+  cases f with
+  | mk m sh =>
+    cases sh with
+    | prim _ _ => exact h
+    | primArr _ _ _ => exact h
+    | bad => exact h
+    | ent s o =>
+      simp only [fieldKindOf, Option.map_eq_some_iff] at h ⊢
+      obtain ⟨x, hx, rfl⟩ := h
+      exact ⟨x, key _ _ hx, rfl⟩
+    | entArr s o =>
+      simp only [fieldKindOf, Option.map_eq_some_iff] at h ⊢
+      obtain ⟨x, hx, rfl⟩ := h
+      exact ⟨x, key _ _ hx, rfl⟩
+
+theorem fieldTagOf_mkMeta (c : Bool) (kt : Option KType) (t : Option Nat) (dd : Dflt) (sh : Shape) :
+    fieldTagOf (.mk (mkMeta c kt t dd) sh) = t := by
+  cases t <;> simp [fieldTagOf, mkMeta]
+
+theorem expField_tag (b : List (List Nat)) (f : FieldDef) (v : Nat) :
+    (DefSpec.expField b f v).tag = tagAt f v := by
+  have : (if DefSpec.rangeMatches f.tagged v = true then f.tag else none) = tagAt f v := by
+    unfold tagAt DefSpec.rangeMatches; cases f.tagged <;> simp
+  unfold DefSpec.expField
+  cases f.ty <;> simp [this]
+
+theorem nullableAt_eq (f : FieldDef) (v : Nat) : DefSpec.rangeMatches f.nullable v = nullableAt f v := by
+  unfold nullableAt DefSpec.rangeMatches; cases f.nullable <;> rfl
+
+theorem prim_nullable_eq {f : FieldDef} (k : KType) (v : Nat) (ht : f.tag.isSome = f.tagged.isSome) :
+    (primNullable f k v || k == .uuid) = DefSpec.expNullable f v (.prim k) := by
+  have h1 : (tagAt f v).isSome = DefSpec.rangeMatches f.tagged v := by
+    unfold tagAt DefSpec.rangeMatches
+    cases hg : f.tagged with
+    | none => rfl
+    | some r =>
+      rw [hg] at ht
+      simp only [Option.isSome_some] at ht
+      by_cases hm : r.matches v = true <;> simp [hm, ht]
+  unfold primNullable DefSpec.expNullable
+  rw [h1, nullableAt_eq]
+  by_cases hk : neverNullable k = true
+  · have : (k == KType.uuid) = false := by
+      cases k <;> simp [neverNullable, isFixedNumeric] at hk ⊢
+    simp [hk, this]
+  · simp only [hk]
+    generalize DefSpec.rangeMatches f.tagged v = a
+    generalize nullableAt f v = n
+    generalize (k == KType.uuid) = u
+    generalize (k == KType.datetimeI64 && f.dflt == some (strOf "-1")) = t
+    generalize f.ignorable = i
+    generalize f.dflt.isNone = dn
+    cases a <;> cases n <;> cases u <;> cases t <;> cases i <;> cases dn <;> rfl
+
+
+/-! ## the joint invariant of the two traversals -/
+
+/-- a generated field agrees with the reading of its definition (`names`: the class names of the
+    module so far, for the struct references) -/
+def FieldOK (ctx : Ctx) (names : List (List Nat)) (fd : FieldDef) (entry : List Nat × Field) : Prop :=
+  entry.1 = (DefSpec.expField ctx.builtins fd ctx.v).name ∧
+  fieldTagOf entry.2 = (DefSpec.expField ctx.builtins fd ctx.v).tag ∧
+  (noErrorCodeArray fd = true →
+    fieldKindOf names entry.2 = some (DefSpec.expField ctx.builtins fd ctx.v).kind) ∧
+  ((∀ k, (DefSpec.expField ctx.builtins fd ctx.v).kind ≠ .primArr k) → noNullableCommonStruct ctx.v fd = true →
+    shapeNullable entry.2.shape = (DefSpec.expField ctx.builtins fd ctx.v).nullable)
+
+theorem FieldOK.mono {ctx : Ctx} {names more : List (List Nat)} {fd : FieldDef} {entry : List Nat × Field}
+    (h : FieldOK ctx names fd entry) : FieldOK ctx (names ++ more) fd entry :=
+  ⟨h.1, h.2.1, fun hn => fieldKindOf_append (h.2.2.1 hn), h.2.2.2⟩
+
+theorem fieldOK_of_one {ctx : Ctx} {fuel : Nat} {acc acc1 : List GClass} {f : FieldDef} {var : Variant}
+    {pyName : List Nat} {fld : Field} {names : List (List Nat)}
+    (hv : variant ctx.d f = .ok var) (h1 : OneInfo ctx fuel acc f acc1 pyName fld var)
+    (hs : ∀ n fs s, var.sub = some (n, fs) → genClass ctx fuel acc n fs false = .ok (acc1, s) →
+      names[s.nameId]? = some n) :
+    FieldOK ctx names f (pyName, fld) := by
+  obtain ⟨htag, hi⟩ := variant_info hv
+  unfold FieldOK
+  rw [expField_tag]
+  cases var with
+  | prim k n =>
+    obtain ⟨_, rfl, c, dd, leaf, rfl⟩ := h1
+    rcases hi with ⟨p, hty, hr⟩ | ⟨p, hty, hc, rfl, rfl⟩
+    · have hpk := resolvePrim_primKind hr
+      refine ⟨?_, fieldTagOf_mkMeta .., ?_, ?_⟩
+      · simp [DefSpec.expField, hty, hpk]
+      · intro _; simp [DefSpec.expField, hty, hpk, fieldKindOf, mkMeta]
+      · intro _ _
+        simp [DefSpec.expField, hty, hpk, shapeNullable, Field.shape, prim_nullable_eq k ctx.v htag]
+    · refine ⟨?_, fieldTagOf_mkMeta .., ?_, ?_⟩
+      · simp [DefSpec.expField, hty]
+      · intro hn
+        simp only [noErrorCodeArray, hty, hc] at hn
+        cases hn
+      · intro hk; exact absurd (by simp [DefSpec.expField, hty]) (hk (ktypeOfPrimT p))
+  | primArr p =>
+    obtain ⟨_, rfl, c, dd, leaf, eo, rfl⟩ := h1
+    obtain ⟨hty, _⟩ := hi
+    refine ⟨?_, fieldTagOf_mkMeta .., ?_, ?_⟩
+    · simp [DefSpec.expField, hty]
+    · intro _; simp [DefSpec.expField, hty, fieldKindOf, mkMeta]
+    · intro hk; exact absurd (by simp [DefSpec.expField, hty]) (hk (ktypeOfPrimT p))
+  | entArr cls fs =>
+    obtain ⟨s, hc, rfl, c, dd, rfl⟩ := h1
+    obtain ⟨hty, _⟩ := hi
+    simp [DefSpec.expField, hty, fieldTagOf_mkMeta, fieldKindOf, hs _ _ _ rfl hc, shapeNullable, Field.shape,
+      DefSpec.expNullable, nullableAt_eq]
+  | csArr cs =>
+    obtain ⟨s, hc, rfl, c, dd, rfl⟩ := h1
+    obtain ⟨hty, _⟩ := hi
+    simp [DefSpec.expField, hty, fieldTagOf_mkMeta, fieldKindOf, hs _ _ _ rfl hc, shapeNullable, Field.shape,
+      DefSpec.expNullable, nullableAt_eq]
+  | ent cls fs =>
+    obtain ⟨s, hc, rfl, c, dd, rfl⟩ := h1
+    obtain ⟨hty, _⟩ := hi
+    simp [DefSpec.expField, hty, fieldTagOf_mkMeta, fieldKindOf, hs _ _ _ rfl hc, shapeNullable, Field.shape,
+      DefSpec.expNullable, nullableAt_eq]
+  | cs cs =>
+    obtain ⟨s, hc, rfl, c, dd, rfl⟩ := h1
+    obtain ⟨hty, hf, _⟩ := hi
+    simp [DefSpec.expField, hty, fieldTagOf_mkMeta, fieldKindOf, hs _ _ _ rfl hc, shapeNullable, Field.shape,
+      DefSpec.expNullable, nullableAt_eq, noNullableCommonStruct, hf]
+
+/-- a generated class agrees with an expected class -/
+def ClassAgree (ctx : Ctx) (names : List (List Nat)) (g : GClass) (e : DefSpec.ExpClass) : Prop :=
+  g.name = e.name ∧ ∃ (fds : List FieldDef) (out : List (List Nat × Field)),
+    e.fields = fds.map (fun f => DefSpec.expField ctx.builtins f ctx.v) ∧
+    g.fieldNames = out.map (·.1) ∧ g.schema.fields = out.map (·.2) ∧
+    All2 (FieldOK ctx names) fds out ∧
+    (∀ P, ctx.d.allFields P = true → ∀ fd ∈ fds, P fd = true)
+
+theorem ClassAgree.mono {ctx : Ctx} {names more : List (List Nat)} {g : GClass} {e : DefSpec.ExpClass}
+    (h : ClassAgree ctx names g e) : ClassAgree ctx (names ++ more) g e := by
+  obtain ⟨h1, fds, out, h2, h3, h4, h5, h6⟩ := h
+  exact ⟨h1, fds, out, h2, h3, h4, h5.mono (fun _ _ _ h => h.mono), h6⟩
+
+/-- the invariant relating the generated classes to the expected ones -/
+structure Inv (ctx : Ctx) (acc : List GClass) (eacc : List DefSpec.ExpClass) : Prop where
+  pos : ∀ (i : Nat) (g : GClass), acc[i]? = some g → g.schema.nameId = i
+  agree : All2 (ClassAgree ctx (acc.map (·.name))) acc eacc
+
+theorem Inv.nil (ctx : Ctx) : Inv ctx [] [] := ⟨by simp, trivial⟩
+
+theorem Inv.names {ctx : Ctx} {acc : List GClass} {eacc : List DefSpec.ExpClass} (h : Inv ctx acc eacc) :
+    acc.map (·.name) = eacc.map (·.name) :=
+  h.agree.map_eq (fun _ _ _ h => h.1)
+
+theorem any_name_iff (eacc : List DefSpec.ExpClass) (n : List Nat) :
+    eacc.any (·.name == n) = true ↔ n ∈ eacc.map (·.name) := by
+  rw [List.any_eq_true, List.mem_map]
+  constructor
+  · rintro ⟨e, he, h⟩; exact ⟨e, he, by simpa using h⟩
+  · rintro ⟨e, he, h⟩; exact ⟨e, he, by simpa using h⟩
+
+theorem find_name_none_iff (acc : List GClass) (n : List Nat) :
+    acc.find? (·.name == n) = none ↔ n ∉ acc.map (·.name) := by
+  rw [List.find?_eq_none, List.mem_map]
+  constructor
+  · rintro h ⟨g, hg, rfl⟩; exact h g hg (by simp)
+  · intro h g hg hn; exact h ⟨g, hg, by simpa using hn⟩
+
+/-- appending the class generated from `fs` on both sides -/
+theorem Inv.snoc {ctx : Ctx} {acc1 : List GClass} {eacc1 : List DefSpec.ExpClass} {fs : List FieldDef}
+    {out : List (List Nat × Field)} (n : List Nat) (top top' : Bool) (h : Inv ctx acc1 eacc1)
+    (hout : All2 (FieldOK ctx (acc1.map (·.name))) (DefSpec.fieldsAt fs ctx.v) out)
+    (hfs : Reach ctx.d fs) :
+    Inv ctx (acc1 ++ [mkClass ctx n top acc1 out])
+      (eacc1 ++ [{ name := n, top := top',
+                   fields := (DefSpec.fieldsAt fs ctx.v).map (fun f => DefSpec.expField ctx.builtins f ctx.v) }]) := by
+  constructor
+  · intro i g hg
+    rcases Nat.lt_or_ge i acc1.length with hi | hi
+    · rw [List.getElem?_append_left hi] at hg
+      exact h.pos i g hg
+    · rw [List.getElem?_append_right hi] at hg
+      have : i - acc1.length = 0 := by
+        rcases Nat.eq_zero_or_pos (i - acc1.length) with h0 | h0
+        · exact h0
+        · rw [List.getElem?_eq_none (by simp only [List.length_singleton]; omega)] at hg; cases hg
+      rw [this] at hg
+      simp only [List.getElem?_cons_zero, Option.some.injEq] at hg
+      subst hg
+      show acc1.length = i
+      omega
+  · rw [List.map_append]
+    refine All2.snoc (h.agree.mono (fun _ _ _ h => h.mono)) ?_
+    refine ⟨rfl, DefSpec.fieldsAt fs ctx.v, out, rfl, rfl, rfl, hout.mono (fun _ _ _ h => h.mono), ?_⟩
+    intro P hP fd hfd
+    exact hfs.mem hP fd (List.mem_filter.1 hfd).1
+
+theorem nodup_prefix {l ext : List GClass} (h : ((l ++ ext).map (·.name)).Nodup) : (l.map (·.name)).Nodup := by
+  rw [List.map_append, List.nodup_append] at h
+  exact h.1
+
+/-- the joint induction: the generator and the independent reading stay in step -/
+theorem gen_spec (ctx : Ctx) : ∀ fuel : Nat,
+    (∀ acc n fs acc' s eacc fuel', fuel ≤ fuel' → genClass ctx fuel acc n fs false = .ok (acc', s) →
+      Inv ctx acc eacc → (acc'.map (·.name)).Nodup → Reach ctx.d fs →
+      Inv ctx acc' (specClass ctx.d ctx.builtins ctx.v fuel' eacc n fs) ∧
+        (acc'.map (·.name))[s.nameId]? = some n) ∧
+    (∀ acc fs acc' out eacc fuel', fuel ≤ fuel' → genFields ctx fuel acc fs = .ok (acc', out) →
+      Inv ctx acc eacc → (acc'.map (·.name)).Nodup → Reach ctx.d fs →
+      Inv ctx acc' (DefSpec.structuresBelow ctx.d ctx.builtins ctx.v fuel' eacc fs) ∧
+        All2 (FieldOK ctx (acc'.map (·.name))) (DefSpec.fieldsAt fs ctx.v) out) := by
+  intro fuel
+  induction fuel with
+  | zero =>
+    refine ⟨?_, ?_⟩
+    · intro acc n fs acc' s eacc fuel' _ h; rw [genClass] at h; cases h
+    · intro acc fs acc' out eacc fuel' _ h; rw [genFields] at h; cases h
+  | succ fuel ih =>
+    obtain ⟨ihC, ihF⟩ := ih
+    refine ⟨?_, ?_⟩
+    · -- genClass
+      intro acc n fs acc' s eacc fuel' hle h hinv hnd hfs
+      unfold specClass
+      rcases genClass_succ_ok h with ⟨g, hg, rfl, rfl⟩ | ⟨hg, acc1, out, h1, rfl, rfl⟩
+      · have hmem : g ∈ acc' := List.mem_of_find?_eq_some hg
+        have hname : g.name = n := by simpa using List.find?_some hg
+        have hany : eacc.any (·.name == n) = true := by
+          rw [any_name_iff, ← hinv.names, ← hname]; exact List.mem_map_of_mem hmem
+        rw [if_pos hany]
+        refine ⟨hinv, ?_⟩
+        obtain ⟨i, hi⟩ := List.mem_iff_getElem?.1 hmem
+        rw [hinv.pos i g hi, List.getElem?_map, hi, ← hname]; rfl
+      · have hany : eacc.any (·.name == n) = false := by
+          rw [Bool.eq_false_iff, Ne, any_name_iff, ← hinv.names]
+          exact (find_name_none_iff acc n).1 hg
+        rw [if_neg (by simp [hany])]
+        have hnd1 := nodup_prefix hnd
+        obtain ⟨hinv1, hout⟩ := ihF acc fs acc1 out eacc fuel' (by omega) h1 hinv hnd1 hfs
+        have hnew : n ∉ acc1.map (·.name) := by
+          rw [List.map_append, List.nodup_append] at hnd
+          intro hmem
+          exact hnd.2.2 n hmem n (by simp [mkClass]) rfl
+        have hany1 : (DefSpec.structuresBelow ctx.d ctx.builtins ctx.v fuel' eacc fs).any (·.name == n) = false := by
+          rw [Bool.eq_false_iff, Ne, any_name_iff, ← hinv1.names]
+          exact hnew
+        simp only [hany1, Bool.false_eq_true, if_false]
+        refine ⟨Inv.snoc n false false hinv1 hout hfs, ?_⟩
+        rw [List.map_append]
+        show (List.map (fun x => x.name) acc1 ++ _)[acc1.length]? = _
+        rw [List.getElem?_append_right (by simp)]
+        simp [mkClass]
+    · -- genFields
+      intro acc fs acc' out eacc fuel' hle h hinv hnd hfs
+      cases fs with
+      | nil =>
+        rw [genFields] at h; cases h
+        obtain ⟨fuel'', rfl⟩ : ∃ k, fuel' = k + 1 := ⟨fuel' - 1, by omega⟩
+        rw [DefSpec.structuresBelow]
+        exact ⟨hinv, trivial⟩
+      | cons f rest =>
+        obtain ⟨fuel'', rfl⟩ : ∃ k, fuel' = k + 1 := ⟨fuel' - 1, by omega⟩
+        have hle' : fuel ≤ fuel'' := by omega
+        rcases genFields_cons_ok h with ⟨hm, h1⟩ | ⟨hm, var, acc1, ⟨pyName, fld⟩, out', hvar, h1, h2, rfl⟩
+        · rw [structuresBelow_cons]
+          simp only [hm, Bool.not_false, if_true]
+          obtain ⟨hinv', hout⟩ := ihF acc rest acc' out eacc fuel'' hle' h1 hinv hnd hfs.rest
+          refine ⟨hinv', ?_⟩
+          simpa [DefSpec.fieldsAt, List.filter_cons, hm] using hout
+        · rw [structuresBelow_cons_step _ _ _ _ _ _ _ hm]
+          obtain ⟨ext2, hext2⟩ := genFields_ext h2
+          have hnd1 : (acc1.map (·.name)).Nodup := by rw [hext2] at hnd; exact nodup_prefix hnd
+          have hinfo := (variant_info hvar).2
+          have hone := genOne_ok h1
+          rw [variant_specSub hinfo]
+          -- the per-field step: invariant after the field, and the struct reference resolves
+          have step : Inv ctx acc1 (specStep ctx.d ctx.builtins ctx.v fuel'' eacc var.sub) ∧
+              (∀ n fs s, var.sub = some (n, fs) → genClass ctx fuel acc n fs false = .ok (acc1, s) →
+                (acc1.map (·.name))[s.nameId]? = some n) := by
+            cases hsub : var.sub with
+            | none =>
+              have := oneInfo_sub_none hone hsub
+              subst this
+              exact ⟨hinv, fun _ _ _ h => by cases h⟩
+            | some nfs =>
+              obtain ⟨n, fs⟩ := nfs
+              obtain ⟨s, hc⟩ := oneInfo_sub_some hone hsub
+              obtain ⟨hi1, hi2⟩ := ihC acc n fs acc1 s eacc fuel'' hle' hc hinv hnd1 (reach_sub hinfo hsub hfs)
+              refine ⟨hi1, ?_⟩
+              intro n2 fs2 s2 h2 hc2
+              simp only [Option.some.injEq, Prod.mk.injEq] at h2
+              obtain ⟨rfl, rfl⟩ := h2
+              rw [hc] at hc2
+              cases hc2
+              exact hi2
+          obtain ⟨hinv1, hlook⟩ := step
+          have hfld := fieldOK_of_one hvar hone hlook
+          obtain ⟨hinv', hout⟩ := ihF acc1 rest acc' out' _ fuel'' hle' h2 hinv1 hnd hfs.rest
+          refine ⟨hinv', ?_⟩
+          have hfa : DefSpec.fieldsAt (f :: rest) ctx.v = f :: DefSpec.fieldsAt rest ctx.v := by
+            simp [DefSpec.fieldsAt, hm]
+          rw [hfa]
+          refine ⟨?_, hout⟩
+          rw [hext2, List.map_append]
+          exact hfld.mono
+
+/-- unfolding `module`: the nested classes, then the class of the message -/
+theorem module_ok {d : MsgDef} {b : List (List Nat)} {v : Nat} {gs : List GClass}
+    (h : module d b v = .ok gs) :
+    ∃ acc1 out, genFields ⟨d, v, b⟩ 99999 [] d.fields = .ok (acc1, out) ∧
+      gs = acc1 ++ [mkClass ⟨d, v, b⟩ d.name true acc1 out] := by
+  unfold module at h
+  have hd : maxDepth = 99999 + 1 := rfl
+  rw [hd] at h
+  cases hc : genClass ⟨d, v, b⟩ (99999 + 1) [] d.name d.fields true with
+  | error e => rw [hc] at h; cases h
+  | ok r =>
+    obtain ⟨acc', s⟩ := r
+    rw [hc] at h
+    cases h
+    rcases genClass_succ_ok hc with ⟨g, hg, _, _⟩ | ⟨_, acc1, out, h1, h2, _⟩
+    · cases hg
+    · exact ⟨acc1, out, h1, h2⟩
+
+/-- the generated module and the expected classes satisfy the joint invariant, provided no two
+    nested classes of the module have the same name -/
+theorem module_inv {d : MsgDef} {b : List (List Nat)} {v : Nat} {gs : List GClass}
+    (h : module d b v = .ok gs) (hnd : (gs.dropLast.map (·.name)).Nodup) :
+    Inv ⟨d, v, b⟩ gs (DefSpec.classesAt d b v) := by
+  obtain ⟨acc1, out, h1, rfl⟩ := module_ok h
+  rw [List.dropLast_concat] at hnd
+  obtain ⟨hinv, hout⟩ := (gen_spec ⟨d, v, b⟩ 99999).2 [] d.fields acc1 out [] 100000 (by omega) h1
+    (Inv.nil _) hnd (Reach.top d)
+  exact Inv.snoc d.name true true hinv hout (Reach.top d)
+
 /-- version ranges are closed on both ends; `N+` is unbounded above; `none` matches nothing -/
 theorem vrange_matches (r : VRange) (v : Nat) :
     r.matches v = true ↔
@@ -49,13 +385,9 @@ theorem vrange_matches (r : VRange) (v : Nat) :
       | .empty => False
       | .mk lo none => lo ≤ v
       | .mk lo (some hi) => lo ≤ v ∧ v ≤ hi := by
-  sorry
-
-/-- **one class per structure visible in the version**, in the same order, the message last -/
-theorem module_classes (d : MsgDef) (b : List (List Nat)) (v : Nat) (gs : List GClass)
-    (h : module d b v = .ok gs) :
-    gs.map (·.name) = (DefSpec.classesAt d b v).map (·.name) := by
-  sorry
+  cases r with
+  | empty => simp [VRange.matches]
+  | mk lo hi => cases hi <;> simp [VRange.matches]
 
 /-- class variables: every class of the module carries the version, the flexibility the
     definition states for that version, the API key and the header version of the Kafka rule;
@@ -65,26 +397,285 @@ theorem module_class_vars (d : MsgDef) (b : List (List Nat)) (v : Nat) (gs : Lis
     (∀ g ∈ gs, g.version = v ∧ g.flexible = d.flexibleVersions.matches v ∧ g.apiKey = d.apiKey
         ∧ g.headerVersion = headerVersionOf d v ∧ g.schema.flexible = d.flexibleVersions.matches v) ∧
     (∃ pre top, gs = pre ++ [top] ∧ top.name = d.name ∧ top.etype = d.kind ∧ ∀ g ∈ pre, g.etype = .nested) := by
-  sorry
+  obtain ⟨acc1, out, h1, rfl⟩ := module_ok h
+  obtain ⟨ext, hext, hvars⟩ := (gen_ext ⟨d, v, b⟩ 99999).2 _ _ _ _ h1
+  rw [List.nil_append] at hext
+  subst hext
+  refine ⟨?_, acc1, _, rfl, rfl, rfl, fun g hg => (hvars g hg).2⟩
+  intro g hg
+  rcases List.mem_append.1 hg with hg | hg
+  · exact (hvars g hg).1
+  · simp only [List.mem_singleton] at hg
+    subst hg
+    exact mkClass_vars ..
+
+/-!
+### Statements that are false as first given
+
+The three statements below were first given *without* the extra hypotheses; they are false in
+that form (counterexamples and refutations: namespace `Kio.Gen.Counter` at the end of this file).
+
+* `hnd` — no two nested classes of the generated module have the same name.  The generator
+  appends the class of a structure after its fields were processed *without* looking again whether
+  a class of that name was generated meanwhile (a structure nested, at any depth, in a structure of
+  the same name yields two classes of that name), whereas `DefSpec.structuresBelow` lists each
+  name once.  The hypothesis is also necessary for the conclusion of `module_classes'`
+  (`module_classes_nodup`: the names of `DefSpec.structuresBelow` are always pairwise distinct).
+* `d.allFields noErrorCodeArray` — no field of a primitive-array type has an error-code name: the
+  generator overwrites the type of such a field by `error_code` (a scalar).
+* `d.allFields (noNullableCommonStruct v)` — no non-array field whose type is a common structure
+  is nullable at `v`: the generator never makes such a field `| None`.
+-/
+
+/-- **one class per structure visible in the version**, in the same order, the message last -/
+theorem module_classes' (d : MsgDef) (b : List (List Nat)) (v : Nat) (gs : List GClass)
+    (h : module d b v = .ok gs) (hnd : (gs.dropLast.map (·.name)).Nodup) :
+    gs.map (·.name) = (DefSpec.classesAt d b v).map (·.name) :=
+  (module_inv h hnd).names
 
 /-- **fields**: each generated class has exactly the definition's fields valid for the version,
     in order, under the naming convention, with the stated Kafka type / struct type and tag -/
-theorem module_fields (d : MsgDef) (b : List (List Nat)) (v : Nat) (gs : List GClass)
-    (h : module d b v = .ok gs) :
+theorem module_fields' (d : MsgDef) (b : List (List Nat)) (v : Nat) (gs : List GClass)
+    (h : module d b v = .ok gs) (hnd : (gs.dropLast.map (·.name)).Nodup)
+    (hec : d.allFields noErrorCodeArray = true) :
     ∀ (i : Nat) (g : GClass) (e : DefSpec.ExpClass), gs[i]? = some g → (DefSpec.classesAt d b v)[i]? = some e →
       g.fieldNames = e.fields.map (·.name) ∧
       g.schema.fields.map fieldTagOf = e.fields.map (·.tag) ∧
       g.schema.fields.map (fieldKindOf (gs.map (·.name))) = e.fields.map (fun f => some f.kind) := by
-  sorry
+  intro i g e hg he
+  obtain ⟨_, fds, out, h2, h3, h4, h5, h6⟩ := (module_inv h hnd).agree.get hg he
+  have h5' := h5.mono (S := fun fd entry => FieldOK ⟨d, v, b⟩ (gs.map (·.name)) fd entry ∧
+      noErrorCodeArray fd = true) (fun fd _ hfd hok => ⟨hok, h6 _ hec fd hfd⟩)
+  rw [h2, h3, h4]
+  simp only [List.map_map]
+  refine ⟨?_, ?_, ?_⟩
+  · exact (h5'.map_eq (fun fd entry _ hok => hok.1.1.symm)).symm
+  · exact (h5'.map_eq (fun fd entry _ hok => hok.1.2.1.symm)).symm
+  · exact (h5'.map_eq (fun fd entry _ hok => (hok.1.2.2.1 hok.2).symm)).symm
 
 /-- **nullability — partial**: for every field that is not a primitive array the annotation is
     nullable exactly when the definition says so.  FULL STATEMENT (false of the generator, see
     `primarr_nullable_witness`; known finding C16/H): the same for primitive arrays. -/
-theorem module_nullability_partial (d : MsgDef) (b : List (List Nat)) (v : Nat) (gs : List GClass)
-    (h : module d b v = .ok gs) :
+theorem module_nullability_partial' (d : MsgDef) (b : List (List Nat)) (v : Nat) (gs : List GClass)
+    (h : module d b v = .ok gs) (hnd : (gs.dropLast.map (·.name)).Nodup)
+    (hcs : d.allFields (noNullableCommonStruct v) = true) :
     ∀ (i : Nat) (g : GClass) (e : DefSpec.ExpClass), gs[i]? = some g → (DefSpec.classesAt d b v)[i]? = some e →
       ∀ (j : Nat) (f : Field) (ef : DefSpec.ExpField), g.schema.fields[j]? = some f → e.fields[j]? = some ef →
         (∀ k, ef.kind ≠ .primArr k) → shapeNullable f.shape = ef.nullable := by
-  sorry
+  intro i g e hg he j f ef hf hef hk
+  obtain ⟨_, fds, out, h2, h3, h4, h5, h6⟩ := (module_inv h hnd).agree.get hg he
+  rw [h4, List.getElem?_map, Option.map_eq_some_iff] at hf
+  rw [h2, List.getElem?_map, Option.map_eq_some_iff] at hef
+  obtain ⟨entry, hentry, rfl⟩ := hf
+  obtain ⟨fd, hfd, rfl⟩ := hef
+  have hok := h5.get hfd hentry
+  exact hok.2.2.2 hk (h6 _ hcs fd (List.mem_of_getElem? hfd))
 
+
+theorem structuresBelow_nodup (d : MsgDef) (b : List (List Nat)) (v : Nat) :
+    ∀ (fuel : Nat) (eacc : List DefSpec.ExpClass) (fs : List FieldDef), (eacc.map (·.name)).Nodup →
+      ((DefSpec.structuresBelow d b v fuel eacc fs).map (·.name)).Nodup := by
+  intro fuel
+  induction fuel with
+  | zero => intro eacc fs h; rw [DefSpec.structuresBelow]; exact h
+  | succ fuel ih =>
+    intro eacc fs h
+    cases fs with
+    | nil => rw [DefSpec.structuresBelow]; exact h
+    | cons f rest =>
+      rw [structuresBelow_cons]
+      split
+      · exact ih _ _ h
+      · split
+        · exact ih _ _ h
+        · rename_i n fs _
+          apply ih
+          unfold specClass
+          split
+          · exact h
+          · simp only
+            split
+            · exact ih _ _ h
+            · rename_i hany
+              rw [List.map_append, List.nodup_append]
+              refine ⟨ih _ _ h, by simp, ?_⟩
+              intro a ha c hc
+              simp only [List.map_cons, List.map_nil, List.mem_singleton] at hc
+              subst hc
+              intro hac
+              subst hac
+              exact hany ((any_name_iff _ _).2 ha)
+
+/-- the hypothesis of `module_classes'` is also necessary -/
+theorem module_classes_nodup (d : MsgDef) (b : List (List Nat)) (v : Nat) (gs : List GClass)
+    (h : gs.map (·.name) = (DefSpec.classesAt d b v).map (·.name)) :
+    (gs.dropLast.map (·.name)).Nodup := by
+  rw [List.map_dropLast, h, DefSpec.classesAt, List.map_append, List.map_cons, List.map_nil,
+    List.dropLast_concat]
+  exact structuresBelow_nodup d b v _ [] _ (by simp)
 end Kio.Gen
+
+/-! ## counterexamples to the statements without the extra hypotheses (kernel-checked by `decide`) -/
+namespace Kio.Gen.Counter
+open Kio Kio.Gen
+
+def r0 : Option VRange := some (.mk 0 none)
+def A : List Nat := [65]
+def M : List Nat := [77]
+/-- a structure `A` (one field, nullable) whose field is again a structure named `A` -/
+def fInner : FieldDef := .mk [71] (.struct A) r0 r0 none none none false none (some [])
+def fOuter : FieldDef := .mk [70] (.struct A) r0 none none none none false none (some [fInner])
+def dNest : MsgDef := ⟨M, .data, none, .mk 0 (some 0), .empty, [fOuter], []⟩
+
+/-- a field of type `[]int16` named `ErrorCode` -/
+def fErr : FieldDef := .mk (strOf "ErrorCode") (.primArr .int16) r0 none none none none false none none
+def dErr : MsgDef := ⟨M, .data, none, .mk 0 (some 0), .empty, [fErr], []⟩
+
+/-- a nullable field whose type is the common structure `A` -/
+def fCS : FieldDef := .mk [70] (.struct A) r0 r0 none none none false none none
+def dCS : MsgDef := ⟨M, .data, none, .mk 0 (some 0), .empty, [fCS], [⟨A, []⟩]⟩
+
+def namesOf (r : Except GenErr (List GClass)) : Option (List (List Nat)) :=
+  match r with | .ok gs => some (gs.map (·.name)) | .error _ => none
+
+def kindsAt (i : Nat) (r : Except GenErr (List GClass)) : Option (List (Option DefSpec.FKind)) :=
+  match r with
+  | .ok gs => (gs[i]?).map (fun g => g.schema.fields.map (fieldKindOf (gs.map (·.name))))
+  | .error _ => none
+
+def nullAt (i j : Nat) (r : Except GenErr (List GClass)) : Option Bool :=
+  match r with
+  | .ok gs => (gs[i]?).bind (fun g => (g.schema.fields[j]?).map (fun f => shapeNullable f.shape))
+  | .error _ => none
+
+theorem nest_names : namesOf (module dNest [] 0) = some [A, A, M] := by decide
+theorem nest_spec_names : (DefSpec.classesAt dNest [] 0).map (·.name) = [A, M] := by decide
+theorem nest_null : nullAt 1 0 (module dNest [] 0) = some true := by decide
+theorem nest_spec_null : ((DefSpec.classesAt dNest [] 0)[1]?).bind (fun e => (e.fields[0]?).map (fun f => (f.kind, f.nullable)))
+    = some (.struct A, false) := by decide
+theorem err_names : namesOf (module dErr [] 0) = some [M] := by decide
+theorem err_kinds : kindsAt 0 (module dErr [] 0) = some [some (.prim .errorCode)] := by decide
+theorem err_spec_kinds : ((DefSpec.classesAt dErr [] 0)[0]?).map (fun e => e.fields.map (fun f => some f.kind))
+    = some [some (.primArr .int16)] := by decide
+theorem err_side : dErr.allFields noErrorCodeArray = false := by decide
+theorem cs_names : namesOf (module dCS [] 0) = some [A, M] := by decide
+theorem cs_null : nullAt 1 0 (module dCS [] 0) = some false := by decide
+theorem cs_spec_null : ((DefSpec.classesAt dCS [] 0)[1]?).bind (fun e => (e.fields[0]?).map (fun f => (f.kind, f.nullable)))
+    = some (.struct A, true) := by decide
+
+def fnamesAt (i : Nat) (r : Except GenErr (List GClass)) : Option (List (List Nat)) :=
+  match r with
+  | .ok gs => (gs[i]?).map (·.fieldNames)
+  | .error _ => none
+
+theorem nest_fnames : fnamesAt 1 (module dNest [] 0) = some [[103]] := by decide
+theorem nest_spec_fnames : ((DefSpec.classesAt dNest [] 0)[1]?).map (fun e => e.fields.map (·.name)) = some [[102]] := by
+  decide
+theorem nest_side1 : dNest.allFields noErrorCodeArray = true := by decide
+theorem nest_side2 : dNest.allFields (noNullableCommonStruct 0) = true := by decide
+theorem cs_side : dCS.allFields (noNullableCommonStruct 0) = false := by decide
+
+theorem ok_of_names {r : Except GenErr (List GClass)} {l : List (List Nat)} (h : namesOf r = some l) :
+    ∃ gs, r = .ok gs ∧ gs.map (·.name) = l := by
+  cases r with
+  | error e => cases h
+  | ok gs => exact ⟨gs, rfl, by simpa [namesOf] using h⟩
+
+theorem nodup_of_names {gs : List GClass} {l : List (List Nat)} (h : gs.map (·.name) = l)
+    (hl : l.dropLast.Nodup) : (gs.dropLast.map (·.name)).Nodup := by
+  rw [List.map_dropLast, h]; exact hl
+
+/-- `module_classes` without the extra hypothesis is false -/
+theorem module_classes_false :
+    ¬ ∀ (d : MsgDef) (b : List (List Nat)) (v : Nat) (gs : List GClass), module d b v = .ok gs →
+      gs.map (·.name) = (DefSpec.classesAt d b v).map (·.name) := by
+  intro H
+  obtain ⟨gs, hm, hn⟩ := ok_of_names nest_names
+  have h2 := H _ _ _ gs hm
+  rw [nest_spec_names, hn] at h2
+  exact absurd h2 (by decide)
+
+/-- `module_fields'` needs the hypothesis on class names … -/
+theorem module_fields_needs_nodup :
+    ¬ ∀ (d : MsgDef) (b : List (List Nat)) (v : Nat) (gs : List GClass), module d b v = .ok gs →
+      d.allFields noErrorCodeArray = true →
+      ∀ (i : Nat) (g : GClass) (e : DefSpec.ExpClass), gs[i]? = some g → (DefSpec.classesAt d b v)[i]? = some e →
+        g.fieldNames = e.fields.map (·.name) ∧
+        g.schema.fields.map fieldTagOf = e.fields.map (·.tag) ∧
+        g.schema.fields.map (fieldKindOf (gs.map (·.name))) = e.fields.map (fun f => some f.kind) := by
+  intro H
+  obtain ⟨gs, hm, _⟩ := ok_of_names nest_names
+  have hk := nest_fnames
+  rw [hm] at hk
+  simp only [fnamesAt, Option.map_eq_some_iff] at hk
+  obtain ⟨g, hg, hk⟩ := hk
+  have he := nest_spec_fnames
+  simp only [Option.map_eq_some_iff] at he
+  obtain ⟨e, he, hek⟩ := he
+  have := (H dNest [] 0 gs hm nest_side1 1 g e hg he).1
+  rw [hk, hek] at this
+  exact absurd this (by decide)
+
+/-- … and the hypothesis on error-code names -/
+theorem module_fields_needs_noErrorCodeArray :
+    ¬ ∀ (d : MsgDef) (b : List (List Nat)) (v : Nat) (gs : List GClass), module d b v = .ok gs →
+      (gs.dropLast.map (·.name)).Nodup →
+      ∀ (i : Nat) (g : GClass) (e : DefSpec.ExpClass), gs[i]? = some g → (DefSpec.classesAt d b v)[i]? = some e →
+        g.fieldNames = e.fields.map (·.name) ∧
+        g.schema.fields.map fieldTagOf = e.fields.map (·.tag) ∧
+        g.schema.fields.map (fieldKindOf (gs.map (·.name))) = e.fields.map (fun f => some f.kind) := by
+  intro H
+  obtain ⟨gs, hm, hn⟩ := ok_of_names err_names
+  have hk := err_kinds
+  rw [hm] at hk
+  simp only [kindsAt, Option.map_eq_some_iff] at hk
+  obtain ⟨g, hg, hk⟩ := hk
+  have he := err_spec_kinds
+  simp only [Option.map_eq_some_iff] at he
+  obtain ⟨e, he, hek⟩ := he
+  have := (H dErr [] 0 gs hm (nodup_of_names hn (by decide)) 0 g e hg he).2.2
+  rw [hk, hek] at this
+  exact absurd this (by decide)
+
+theorem null_refute {d : MsgDef} {gs : List GClass} {i j : Nat} {x y : Bool} {kd : DefSpec.FKind}
+    (hm : module d [] 0 = .ok gs)
+    (h1 : nullAt i j (module d [] 0) = some x)
+    (h2 : ((DefSpec.classesAt d [] 0)[i]?).bind (fun e => (e.fields[j]?).map (fun f => (f.kind, f.nullable)))
+      = some (kd, y))
+    (hkd : ∀ k, kd ≠ .primArr k) (hxy : x ≠ y) :
+    ¬ ∀ (i : Nat) (g : GClass) (e : DefSpec.ExpClass), gs[i]? = some g → (DefSpec.classesAt d [] 0)[i]? = some e →
+      ∀ (j : Nat) (f : Field) (ef : DefSpec.ExpField), g.schema.fields[j]? = some f → e.fields[j]? = some ef →
+        (∀ k, ef.kind ≠ .primArr k) → shapeNullable f.shape = ef.nullable := by
+  intro H
+  rw [hm] at h1
+  simp only [nullAt, Option.bind_eq_some_iff, Option.map_eq_some_iff] at h1
+  obtain ⟨g, hg, f, hf, rfl⟩ := h1
+  simp only [Option.bind_eq_some_iff, Option.map_eq_some_iff, Prod.mk.injEq] at h2
+  obtain ⟨e, he, ef, hef, rfl, rfl⟩ := h2
+  exact hxy (H i g e hg he j f ef hf hef hkd)
+
+/-- `module_nullability_partial'` needs the hypothesis on class names … -/
+theorem module_nullability_needs_nodup :
+    ¬ ∀ (d : MsgDef) (b : List (List Nat)) (v : Nat) (gs : List GClass), module d b v = .ok gs →
+      d.allFields (noNullableCommonStruct v) = true →
+      ∀ (i : Nat) (g : GClass) (e : DefSpec.ExpClass), gs[i]? = some g → (DefSpec.classesAt d b v)[i]? = some e →
+        ∀ (j : Nat) (f : Field) (ef : DefSpec.ExpField), g.schema.fields[j]? = some f → e.fields[j]? = some ef →
+          (∀ k, ef.kind ≠ .primArr k) → shapeNullable f.shape = ef.nullable := by
+  intro H
+  obtain ⟨gs, hm, _⟩ := ok_of_names nest_names
+  exact null_refute hm nest_null nest_spec_null (by intro k h; cases h) (by decide)
+    (H dNest [] 0 gs hm nest_side2)
+
+/-- … and the hypothesis on nullable common-structure fields -/
+theorem module_nullability_needs_noNullableCommonStruct :
+    ¬ ∀ (d : MsgDef) (b : List (List Nat)) (v : Nat) (gs : List GClass), module d b v = .ok gs →
+      (gs.dropLast.map (·.name)).Nodup →
+      ∀ (i : Nat) (g : GClass) (e : DefSpec.ExpClass), gs[i]? = some g → (DefSpec.classesAt d b v)[i]? = some e →
+        ∀ (j : Nat) (f : Field) (ef : DefSpec.ExpField), g.schema.fields[j]? = some f → e.fields[j]? = some ef →
+          (∀ k, ef.kind ≠ .primArr k) → shapeNullable f.shape = ef.nullable := by
+  intro H
+  obtain ⟨gs, hm, hn⟩ := ok_of_names cs_names
+  exact null_refute hm cs_null cs_spec_null (by intro k h; cases h) (by decide)
+    (H dCS [] 0 gs hm (nodup_of_names hn (by decide)))
+
+end Kio.Gen.Counter
